@@ -184,13 +184,68 @@ Print Assumptions C15_gossip_done.
    nothing on the model's own observation: whatever it flags on the implementation is a
    deviation from the behaviour the theorems above describe. *)
 Theorem C15_checker_accepts_model : forall i roles pr evs,
-  case_violations (mkCase i 0 roles pr evs (run_obs pr init evs)) = [].
+  case_violations (mkCase i 0 roles pr evs (run_obs pr init evs) [] []) = [].
 Proof. exact checker_accepts_model. Qed.
 Print Assumptions C15_checker_accepts_model.
 
-(* The same for the final-view clause used on concurrent runs (mode <> 0: only the views after
-   all calls returned are observed; an empty observation means a call never returned). *)
-Theorem C15_checker_accepts_final : forall i m roles pr evs, m <> 0 ->
-  case_violations (mkCase i m roles pr evs [final_obs pr evs]) = [].
+(* The same for the final-view clause used on concurrent runs (mode 1: only the views after all
+   calls returned are observed; an empty observation means a call never returned). *)
+Theorem C15_checker_accepts_final : forall i roles pr evs,
+  case_violations (mkCase i 1 roles pr evs [final_obs pr evs] [] []) = [].
 Proof. exact checker_accepts_final. Qed.
 Print Assumptions C15_checker_accepts_final.
+
+(* ---- Connected is not one critical section ------------------------------------------------------
+   C15_announce* above describe a Connected call that runs without interruption.  In the code the
+   body spans several critical sections and overlaps with other calls.  Step model
+   (model/Topology.v): SAdd c p lk ann (call c starts: add), SReadProviders c (snapshot), SAnnounce c
+   (lookups + message to the newcomer), SReadBidders c (snapshot + own lookup), SFanout c (one
+   message to the next bidder of the snapshot), SOther e (any atomic event), interleaved
+   arbitrarily; [call_effects c l] are the effects of call c's steps in the step history l. *)
+
+(* The atomic event is exactly the uninterrupted call. *)
+Theorem C15_step_sequential : forall s c p lk ann, find_call c (calls s) = None ->
+  let n := length (get_peers ROLE_BIDDER (add p (base s))) in
+  base (srun_from s (seq_call c p lk ann n)) = fst (step (base s) (Connected p lk ann))
+  /\ call_effects_from s c (seq_call c p lk ann n) = snd (step (base s) (Connected p lk ann)).
+Proof. exact seq_connected. Qed.
+Print Assumptions C15_step_sequential.
+
+(* SOUNDNESS under any interleaving: whatever call c (for peer p) announces is either a non-empty
+   message to p whose every record (a, u) is not p's own, has lookup answer u, and is the record of
+   a provider that was in the view when c took its provider snapshot (so never a bidder-only
+   record); or -- only if p is a provider whose own lookup succeeded -- exactly [p's record], sent
+   to a bidder that was in the view when c took its bidder snapshot. *)
+Theorem C15_step_sound : forall l c t recs, In (Announce t recs) (call_effects c l) ->
+  exists p lk ann l1 l2, l = l1 ++ SAdd c p lk ann :: l2 /\
+  ( (t = p /\ recs <> [] /\
+     forall a u, In (a, u) recs ->
+       a <> p_addr p /\ tbl_get lk (mkPeer a ROLE_PROVIDER) = Some u /\
+       exists pre post, l = pre ++ SReadProviders c :: post
+                        /\ In (mkPeer a ROLE_PROVIDER) (get_peers ROLE_PROVIDER (base (srun pre))))
+    \/
+    (p_role p = ROLE_PROVIDER /\ exists u, tbl_get lk p = Some u /\ recs = [(p_addr p, u)] /\
+     exists pre post, l = pre ++ SReadBidders c :: post /\ In t (get_peers ROLE_BIDDER (base (srun pre)))) ).
+Proof. exact step_sound. Qed.
+Print Assumptions C15_step_sound.
+
+(* NO LOSS under any interleaving: a provider a that is in the view when call c starts and is not
+   disconnected while c runs is announced to the newcomer (when its lookup succeeds), and -- if the
+   newcomer is a provider whose own lookup succeeds -- every bidder that is in the view when c
+   starts and is not disconnected while c runs is sent the newcomer's record, once c has returned. *)
+Theorem C15_step_no_loss : forall l1 c p lk ann l2, find_call c (calls (srun l1)) = None ->
+  (exists k, find_call c (calls (srun (l1 ++ SAdd c p lk ann :: l2))) = Some k /\ call_done k = true) ->
+  (forall a u, In (mkPeer a ROLE_PROVIDER) (get_peers ROLE_PROVIDER (base (srun l1))) ->
+     (forall e, In e l2 -> ~ (exists q, e = SOther (Disconnected q) /\ p_addr q = a /\ p_role q = ROLE_PROVIDER)) ->
+     a <> p_addr p -> tbl_get lk (mkPeer a ROLE_PROVIDER) = Some u ->
+     exists recs, In (Announce p recs) (call_effects c (l1 ++ SAdd c p lk ann :: l2)) /\ In (a, u) recs)
+  /\ (forall b u, In (mkPeer b ROLE_BIDDER) (get_peers ROLE_BIDDER (base (srun l1))) ->
+     (forall e, In e l2 -> ~ (exists q, e = SOther (Disconnected q) /\ p_addr q = b /\ p_role q = ROLE_BIDDER)) ->
+     p_role p = ROLE_PROVIDER -> tbl_get lk p = Some u ->
+     In (Announce (mkPeer b ROLE_BIDDER) [(p_addr p, u)]) (call_effects c (l1 ++ SAdd c p lk ann :: l2))).
+Proof.
+  exact (fun l1 c p lk ann l2 Hf Hd =>
+    conj (fun a u Ha Hn Hne Hlk => no_loss_providers l1 c p lk ann l2 a u Hf Ha Hn Hne Hlk Hd)
+         (fun b u Hb Hn Hr Hlk => no_loss_bidders l1 c p lk ann l2 b u Hf Hb Hn Hr Hlk Hd)).
+Qed.
+Print Assumptions C15_step_no_loss.
